@@ -20,7 +20,9 @@ def _kinds_of(cfg):
 
 def to_script(name, hist, kinds):
     rms = [h["rm"] for h in hist if h["op"] == "connect"]
-    steps = [dict(op="cfg", hosts=2, ka=0, tseed=5)]
+    # one broker per connection of the history: the list never wraps around, so no back-off pause separates the
+    # model's "connect" steps
+    steps = [dict(op="cfg", hosts=max(2, len(rms)), ka=0, tseed=5)]
     for rm in rms:
         steps.append(dict(op="connack", sp=-1, props=[] if rm == 65535 else [[33, rm]]))
     # the client is running from the start; the network lets a connection through only at the model's connect step
